@@ -135,6 +135,13 @@ impl Scenario for C11 {
             // aux[1] = u64::MAX: all crash points; aux[2] = 1 + k: word k of the durable state is zero
             spec.aux.push(u64::MAX);
             spec.aux.push(1 + rng.below(512));
+        } else if matches!(kind, Kind::Isaac | Kind::Isaac64) && rng.chance(1, 6) {
+            // aux[2] = 1000 + j: far along in the stream - the block counter is about to wrap (or to pass
+            // 2^24 / 2^32): the history then snapshots in the block right after the wrap
+            spec.aux.push(u64::MAX);
+            spec.aux.push(1000 + rng.below(8));
+            // make sure the history crosses at least one refill
+            spec.ops.insert(0, Op::Fill(kind.block_bytes() as u32 + 9));
         }
         spec
     }
@@ -190,6 +197,25 @@ impl C11 {
         let k = spec.aux.get(2).copied().unwrap_or(0);
         if k == 0 || !matches!(kind, Kind::Isaac | Kind::Isaac64) {
             return Ok(g);
+        }
+        if k >= 1000 {
+            let max = if kind == Kind::Isaac { u32::MAX as u64 } else { u64::MAX };
+            let value = match k - 1000 {
+                0 | 1 => max,
+                2 => max - 1,
+                3 => max - 2,
+                4 => (1 << 24) - 1,
+                5 => (1u64 << 31) - 1,
+                6 => max >> 1,
+                _ => (1u64 << 32) - 1,
+            };
+            return Ok(match far_along(g.as_ref(), value & max) {
+                Some(f) => {
+                    st.count("probe:far_along_counter");
+                    f
+                }
+                None => g,
+            });
         }
         let k = (k - 1) as usize % 512;
         let w = (kind.word_bits() / 8) as usize;
